@@ -229,6 +229,9 @@ func runScenarioX(ctx *CaseCtx, s Scenario, r *rand.Rand, reps int, res *CaseRes
 		if after != nil {
 			after(in, &o)
 		}
+		if in.ViaSetUsed > 0 {
+			res.obs("calls_with_inputs_through_ValueSet.Args", int64(in.ViaSetUsed))
+		}
 		res.obs("events", int64(len(o.Events)))
 		res.obs("converter_executions", int64(convEvents(o.Events)))
 		res.obs("class."+o.Class, 1)
@@ -272,6 +275,15 @@ var denseCfg = func() GenCfg {
 }()
 
 func pickGeneralMix(r *rand.Rand) (Scenario, string) {
+	s, fam := pickGeneralMix0(r)
+	if r.Intn(8) == 0 {
+		// same model over unnamed / mutually assignable / func / chan types
+		return exoticize(s, r), fam
+	}
+	return s, fam
+}
+
+func pickGeneralMix0(r *rand.Rand) (Scenario, string) {
 	x := r.Intn(100)
 	switch {
 	case x < 55:
@@ -321,8 +333,15 @@ func init() {
 			var res CaseResult
 			r := caseRand(c.Seed, "C01", c.Idx)
 			denseCases = c.Tier == "thorough"
+			if c.Idx%16 == 9 {
+				runDefaultsHistory(c, r, &res, nil)
+				return res
+			}
 			s, fam := pickGeneralMix(r)
 			res.Key = s.Key()
+			if usesExotic(s) {
+				res.obs("cases_over_exotic_types", 1)
+			}
 			reps := tierReps(c.Tier, 3, 8)
 			zero := -1
 			if len(s.Inputs) > 0 && r.Intn(10) == 0 {
@@ -337,7 +356,11 @@ func init() {
 					res.obs("arguments_checked", int64(len(e.Args)))
 				}
 			}
-			outs, _ := runScenarioX(c, s, r, reps, &res, func(in *Inst) { in.ZeroInput1 = zero + 1 }, func(in *Inst, o *Outcome) {
+			viaSet := r.Intn(8) == 0
+			if viaSet {
+				res.obs("cases_with_inputs_through_ValueSet.Args", 1)
+			}
+			outs, _ := runScenarioX(c, s, r, reps, &res, func(in *Inst) { in.ZeroInput1 = zero + 1; in.ViaSet = viaSet }, func(in *Inst, o *Outcome) {
 				count(o.Events)
 				if o.Class == ClsPanic || r.Intn(2) == 0 {
 					return
@@ -346,6 +369,11 @@ func init() {
 				// untouched), a call of the redefined function, a second Call
 				det := func(api string, x *Outcome) interface{} {
 					return map[string]interface{}{"scenario": s.String(), "api": api, "class": x.Class, "err": firstLine(errStr(x.Err)), "events": eventsStr(x.Events)}
+				}
+				if r.Intn(3) == 0 && touchInputSet(in.W, in.Target.Func, 40, r) {
+					// the target's own input value set now holds values of an
+					// unrelated use
+					res.obs("histories_with_a_written_input_value_set", 1)
 				}
 				ropts := in.AllArgs(1, r)
 				if r.Intn(2) == 0 {
@@ -398,7 +426,7 @@ func init() {
 		Cases:      func(t string) int { return tierN(t, 6000, 150000) },
 		Rule: "same generator mix as C01 with more hostile shapes; a case is in scope when some target parameter is outside the MAY least fix-point; " +
 			"oracle: Err()!=nil, target body never executed, no fabricated argument (C01 monitor), and ErrArgumentUnsatisfied when every converter is MUST-satisfiable; " +
-			"two history families (1 case in 12 each): a target lacking one critical input whose default options share a caller-owned list with another function that IS given that input; a run-once TARGET that succeeded once and is then called without a critical input; " +
+			"three history families (1 case in 12 each): a target Func with a subtyped default value that is called with, without, with (and Redefined with) a critical value sharing the default's name or type; a target lacking one critical input whose default options share a caller-owned list with another function that IS given that input; a run-once TARGET that succeeded once and is then called without a critical input; " +
 			"non-trivial = underivable parameter for which some label of its type exists in the case (so its vertex is not trivially absent)",
 		Assumptions: []string{
 			"underivable means: outside the least fix-point under the MAY table (a conforming implementation may match fewer pairs than MAY, never more)",
@@ -413,6 +441,13 @@ func init() {
 			}
 			if c.Idx%12 == 5 {
 				return runC02OnceTarget(c, r)
+			}
+			if c.Idx%12 == 8 {
+				runDefaultsHistory(c, r, &res, nil)
+				if res.Skip == "" {
+					res.obs("underivable_cases", 1)
+				}
+				return res
 			}
 			var s Scenario
 			var fam string
@@ -433,6 +468,9 @@ func init() {
 				}
 			}
 			res.Key = s.Key()
+			if usesExotic(s) {
+				res.obs("cases_over_exotic_types", 1)
+			}
 			cf := factsOf(&s)
 			if cf.fMay.AllOK {
 				res.Skip = "derivable"
@@ -469,7 +507,6 @@ func init() {
 		},
 	})
 }
-
 
 // runC02SharedDefaults: a target that lacks one input must stay refused even
 // after another function, whose default options come from the same
@@ -543,7 +580,6 @@ func runC02SharedDefaults(c *CaseCtx, r *rand.Rand) (res CaseResult) {
 	res.Sample = map[string]interface{}{"scenario": s.String(), "missing_input": x.String(), "family": "shared-defaults"}
 	return res
 }
-
 
 // runC02OnceTarget: a run-once TARGET that has already succeeded must still
 // refuse a later call whose arguments cannot be derived (memoization is about
